@@ -221,12 +221,18 @@ def backOf (rest : List EE) : List QE := rest.map (fun e => ⟨none, e.node, e.d
 `not items or items[-1] is not next_inner` -/
 def replacing (items : List Obj) (next : Obj) : Bool := items = [] || items.getLast? != some next
 
+/-- `to_unwrap[0] = (origin, item, min(depth, next_depth))`: the queued next_inner must not look deeper than
+the inserting frame. -/
+def capHead (d : Nat) : List QE → List QE
+  | [] => []
+  | q :: qs => { q with depth := min d q.depth } :: qs
+
 /-- The new `to_unwrap` after a frame at depth `d` returned `items`. -/
 def requeue (env : Env) (d : Nat) (next : Obj) (items : List Obj) (rest : List EE) : List QE :=
   if replacing items next then
     items.map (fun o => ⟨betterOrigin env o none, o, d⟩) ++ (backOf rest).dropWhile (fun q => q.depth ≥ d)
   else
-    items.dropLast.map (fun o => ⟨betterOrigin env o none, o, d⟩) ++ backOf rest
+    items.dropLast.map (fun o => ⟨betterOrigin env o none, o, d⟩) ++ capHead d (backOf rest)
 
 /-- After the unwrap phase: elaborate the first pending frame, or finish. Returns either the final
 outcome or the state at the head of the next outer-loop iteration. -/
@@ -307,7 +313,7 @@ def elabStepX (env : Env) (s : St) : Except Crash (Sum Outcome St) := do
                       pure (l != next))
         let q : List QE :=
           if repl then items.map (fun o => ⟨betterOrigin env o none, o, d⟩) ++ (backOf rest).dropWhile (fun q => q.depth ≥ d)
-          else items.dropLast.map (fun o => ⟨betterOrigin env o none, o, d⟩) ++ backOf rest
+          else items.dropLast.map (fun o => ⟨betterOrigin env o none, o, d⟩) ++ capHead d (backOf rest)
         return .inr { s1 with toUnwrap := q, toElab := [] }
     | _ => throw .assertion                              -- assert isinstance(frame, Frame)
   | _ =>
